@@ -117,7 +117,7 @@ def _drop_logs(body, record):
             continue
         # must be a whole statement: preceded (ignoring ws) by `{`, `;` or `}`
         k = m.start() - 1
-        while k >= 0 and body[k].isspace():
+        while k >= 0 and (body[k].isspace() or not mask[k]):
             k -= 1
         if k >= 0 and body[k] not in "{;}":
             continue
